@@ -1930,6 +1930,7 @@ func (c *DefaultCtx) release() {
 	c.route = nil
 	c.fasthttp = nil
 	c.bind = nil
+	clear(c.flashMessages) // the decoder reuses the elements and only assigns fields present in the cookie
 	c.flashMessages = c.flashMessages[:0]
 	c.viewBindMap = sync.Map{}
 	if c.redirect != nil {
